@@ -985,3 +985,95 @@ Example race_parked_waker_fixed_is_woken :
   /\ snd (run step s (repeat (T 0) 11)) = [OWakeB 2%N]
   /\ blocked (fst (run step s (repeat (T 0) 11))) = [].
 Proof. vm_compute. repeat split; reflexivity. Qed.
+
+(** * Seeded change C06-a: status check and [Dropped] store under different lock acquisitions
+
+    [step_c06a]: [State::drop] releases the operation's mutex between "is it Running?" and the
+    store of [Dropped] (queueing the cancel in between). The ring thread dispatches the final
+    completion inside that window (Running -> Done, waker woken); the drop then overwrites Done
+    with Dropped and has asked to cancel an operation that had finished. Nothing is owed to the
+    operation any more, so no dispatch will ever free it: the state box is leaked — clause (c) of
+    [race_state_reclaimed_exactly_once] fails (Dropped, allocated, but no completion outstanding). *)
+Definition c06a_progs : list (list call) := [[Poll 0 1%N; DropOp 0]].
+Definition c06a_events : list ev :=
+  repeat (T 1) 8 ++ repeat (T 0) 5 ++ repeat (T 0) 5 ++ [T 1] ++ [T 0] ++ repeat (T 1) 7 ++ [T 1]
+  ++ repeat (T 0) 4 ++ repeat (T 0) 12 ++ repeat (T 0) 12.
+
+Definition race_reclaimed_c06a_leaks : Prop :=
+  exists progs es, progs_ok progs /\
+    let r := run step_c06a (init 2%N true [] 3 progs) es in
+    let s := fst r in
+    o_st (ops s 0) = Dropped /\ o_alloc (ops s 0) = true /\ g_frees (ops s 0) = 0
+    /\ tokens s 0 = 0 /\ sq s = [] /\ cq s = [] /\ inflight s = []
+    /\ f_prog (thr s 0) = []
+    /\ snd r = [OPending 0 1%N; OConsumed (Submit 0); OWake 1%N; OConsumed (Cancel 0)].
+
+Lemma c06a_progs_ok : progs_ok c06a_progs.
+Proof.
+  split.
+  - intros [|t]; cbn [nth c06a_progs linear]; repeat split; try exact I;
+      try (intros H; uses_inv H). destruct t; exact I.
+  - intros t1 t2 i H1 H2.
+    destruct t1 as [|t1]; destruct t2 as [|t2]; try reflexivity; cbn [nth c06a_progs] in H1, H2;
+      try (exfalso; destruct t1; exact (uses_nil _ H1)); try (exfalso; destruct t2; exact (uses_nil _ H2)).
+Qed.
+
+Lemma race_reclaimed_c06a_leaks_holds : race_reclaimed_c06a_leaks.
+Proof.
+  exists c06a_progs, c06a_events. split; [exact c06a_progs_ok|]. vm_compute. repeat split; reflexivity.
+Qed.
+
+(** * Towards a linearisation (partial)
+
+    What is proved: PER OPERATION the small-step execution is an execution of the atomic life
+    cycle of Model/OpState.v with stuttering. Forget the mutex and the ghosts
+    ([abs o = (status, waker, allocated)]); then every step of every reachable small-step
+    execution changes [abs] of every operation by exactly one transition of the atomic machine
+    ([atomic_trans], the single-shot fragment of OpState's [poll] / [drop_op] / [update]) or not
+    at all: each API call and each dispatch takes effect in ONE step, its linearisation point
+    (the first step of a call on a Running / Done / non-running operation; the tail store of
+    [Submissions::add] for a submitting poll and for a drop that queues its cancel; the failed
+    fullness check for a drop without room; the dispatch step of the ring thread), and the
+    observations of that step are the ones the atomic step gives (clauses (G1)-(G4), (F), (d)
+    above). Because calls on one operation are sequential in their thread and a call's commit
+    step lies between its first and last step, this per-operation order is compatible with the
+    calls' real-time order.
+
+    What is missing for the full statement ("same observable outcome as SOME execution of
+    Model/OpState.v's [step]"): the GLOBAL part — one total order of commit steps under which the
+    shared submission queue and blocked list evolve as in OpState. It does not hold verbatim:
+    a poll decides "queue full" from two loads that may be stale by the time it parks, so the
+    atomic [poll_start] (which tests [has_room] at the linearisation point) would have to be
+    relaxed to "may park although there is room"; likewise [wake_blocked_futures] works on a
+    snapshot. The consequences that C03/C06 need from such a linearisation are proved directly
+    on the small-step model above instead. *)
+Definition abs (o : op) : status * option N * bool := (o_st o, o_waker o, o_alloc o).
+
+Inductive atomic_trans : status * option N * bool -> status * option N * bool -> Prop :=
+  | at_stutter a : atomic_trans a a
+  | at_poll_submit wk w : atomic_trans (NotStarted, wk, true) (Running, Some w, true)
+  | at_poll_pending wk w : atomic_trans (Running, wk, true) (Running, Some w, true)
+  | at_poll_ready wk al : atomic_trans (Done, wk, al) (Complete, wk, al)
+  | at_drop_running wk al : atomic_trans (Running, wk, al) (Dropped, wk, al)
+  | at_drop_free x wk : x <> Running -> x <> Dropped -> atomic_trans (x, wk, true) (x, wk, false)
+  | at_update_done wk : atomic_trans (Running, wk, true) (Done, None, true)
+  | at_update_free wk : atomic_trans (Dropped, wk, true) (Dropped, wk, false).
+
+Definition race_refines_atomic_per_operation_partial : Prop :=
+  forall cap0 auto0 canc npolls progs es e, progs_ok progs ->
+    let s := fst (run step (init cap0 auto0 canc npolls progs) es) in
+    forall j, atomic_trans (abs (ops s j)) (abs (ops (fst (step s e)) j)).
+
+Lemma race_refines_atomic_per_operation_partial_holds : race_refines_atomic_per_operation_partial.
+Proof.
+  intros cap0 auto0 canc npolls progs es e Hp s j.
+  pose proof (reachable_inv cap0 auto0 canc npolls progs es Hp) as HI. fold s in HI.
+  pose proof (step_op_trans s e HI j) as Hot. revert Hot.
+  generalize (ops s j) (ops (fst (step s e)) j). intros o o' Hot. unfold abs.
+  inversion Hot; subst; ssimpl;
+    repeat match goal with
+    | H : o_st o = _ |- _ => rewrite H
+    | H : o_alloc o = _ |- _ => rewrite H
+    end;
+    first [ apply at_update_free | solve [constructor; assumption] | constructor ].
+Qed.
